@@ -48,7 +48,7 @@ def optimize_prec_assignment(model: MPS,
     # (Gumbel noise or a disabled sampling would leave theta alpha values that are not the argmax
     # of the current alpha). Perform a dummy forward pass to ensure the theta alpha values are updated.
     model.update_softmax_options(hard=True, gumbel=False, disable_sampling=False)
-    model(model._input_example)
+    _dummy_forward(model)
 
     with torch.no_grad():
         # Retrieve the cost function and the cost specification
@@ -164,10 +164,16 @@ def optimize_prec_assignment(model: MPS,
                 base_model_cost = base_model_cost + cost_fn_map[lname](v)
 
     # Update the theta_alpha parameters with a dummy forward pass
-    model(model._input_example)
+    _dummy_forward(model)
     print("Model cost decreased from {} to {}".format(base_model_cost.item(), best_model_cost.item()))
 
     return model
+
+
+def _dummy_forward(model):
+    """Run the model on its input example (a tuple of tensors for a network with several inputs)."""
+    example = model._input_example
+    return model(*example) if isinstance(example, (tuple, list)) else model(example)
 
 
 def _compute_cost(model, layer, w_theta_alpha_array, cost_fn_map, lname, node):
